@@ -6,7 +6,7 @@ use crate::client::{ClientSpec, ClientView, run_client};
 use crate::pipe::{WRule, pipe};
 use crate::rng::Fnv;
 use crate::services::{
-    RecLocalization, Services, SimAuth, SimDiscovery, SimFilter, SimStatus, SimStrategy, shared,
+    RecLocalization, Services, SimAuth, SimDiscovery, SimStatus, SimStrategy, shared,
 };
 use crate::world::{Event, W, hexopt, new_world};
 use passage_protocol::connection::Connection;
@@ -94,6 +94,19 @@ pub struct ConnScenario {
     /// keeps between connections - a cache, a static, a counter - is primed by them)
     #[serde(default, skip_serializing_if = "Vec::is_empty")]
     pub prelude: Vec<ConnScenario>,
+    /// C04 only: run the scenario `rounds x per_round` times with fresh client-chosen values each time and compare the
+    /// live heap of the thread between rounds
+    #[serde(default, skip_serializing_if = "Option::is_none")]
+    pub growth: Option<Growth>,
+}
+
+#[derive(Clone, Debug, Serialize, Deserialize, PartialEq)]
+pub struct Growth {
+    pub per_round: u32,
+    /// bytes of padding in the client-chosen host name (the handshake frame has to stay under the frame limit)
+    pub host_len: u32,
+    /// which client-chosen values change from connection to connection: "host", "name", "locale", "brand", "uuid", "addr"
+    pub vary: Vec<String>,
 }
 
 #[derive(Clone, Debug, Serialize, Deserialize, PartialEq)]
@@ -228,6 +241,24 @@ pub fn run_conn_after_prelude(sc: &ConnScenario) -> ConnOutcome {
     run_conn(sc)
 }
 
+thread_local! {
+    static PERSIST: std::cell::RefCell<Option<crate::services::Persistent>> = const { std::cell::RefCell::new(None) };
+}
+
+/// While the guard lives, every `run_conn` of this thread uses the same filter-chain and localization objects.
+pub struct PersistGuard;
+
+pub fn persist_adapters(s: &Services) -> PersistGuard {
+    PERSIST.with(|p| *p.borrow_mut() = Some(crate::services::Persistent::new(s)));
+    PersistGuard
+}
+
+impl Drop for PersistGuard {
+    fn drop(&mut self) {
+        let _ = PERSIST.try_with(|p| p.borrow_mut().take());
+    }
+}
+
 pub fn run_conn(sc: &ConnScenario) -> ConnOutcome {
     let rt = new_runtime(sc.seed);
     alloc::reset_alloc();
@@ -256,9 +287,15 @@ async fn run_conn_async(sc: &ConnScenario) -> ConnOutcome {
     let status = Arc::new(SimStatus::new(&sh, sc.services.status.clone()));
     let auth = Arc::new(SimAuth::new(&sh, sc.services.auth.clone()));
     let disc = Arc::new(SimDiscovery::new(&sh, sc.services.discovery.clone()));
-    let filt = Arc::new(SimFilter::new(&sh, sc.services.filter.clone()));
     let strat = Arc::new(SimStrategy::new(&sh, sc.services.strategy.clone()));
-    let loc = Arc::new(RecLocalization::new(&sh, &sc.services.localization));
+    // the adapter objects that hold real code: fresh per connection, or the ones a history of connections shares
+    let (filt, loc) = PERSIST.with(|p| match &*p.borrow() {
+        Some(p) => {
+            p.rebind(&sh);
+            (p.filt.clone(), p.loc.clone())
+        }
+        None => (Arc::new(crate::services::filter_chain(&sh, &sc.services)), Arc::new(RecLocalization::new(&sh, &sc.services.localization))),
+    });
     let addr: SocketAddr = sc.cfg.client_addr.parse().expect("client addr");
     let cfg = sc.cfg.clone();
     let w2 = world.clone();
